@@ -65,4 +65,301 @@ theorem b64_roundtrip (b : Bytes) : b64decode (b64encode b) = some b := by
     rw [show a.toNat / 4 * 4 + (a.toNat % 4 * 16) / 16 = a.toNat by omega, UInt8.ofNat_toNat]
   | case4 => rfl
 
+
+theorem b64_canonical {s b : Bytes} (h : b64decode s = some b) : b64encode b = s := by
+  fun_induction b64decode s generalizing b with
+  | case1 => cases h; rfl
+  | case2 c => cases h
+  | case3 c0 c1 v0 v1 h1 h0 hm =>
+    cases h
+    obtain ⟨e0, l0⟩ := sym_val h0; obtain ⟨e1, l1⟩ := sym_val h1
+    simp only [b64encode]
+    rw [ofNat_toNat_lt (by omega)]
+    rw [show (v0 * 4 + v1 / 16) / 4 = v0 by omega, show (v0 * 4 + v1 / 16) % 4 * 16 = v1 by omega, e0, e1]
+  | case4 => cases h
+  | case5 => cases h
+  | case6 c0 c1 c2 v0 v1 v2 h2 h1 h0 hm =>
+    cases h
+    obtain ⟨e0, l0⟩ := sym_val h0; obtain ⟨e1, l1⟩ := sym_val h1; obtain ⟨e2, l2⟩ := sym_val h2
+    simp only [b64encode]
+    rw [ofNat_toNat_lt (by omega), ofNat_toNat_lt (by omega)]
+    rw [show (v0 * 4 + v1 / 16) / 4 = v0 by omega,
+      show (v0 * 4 + v1 / 16) % 4 * 16 + (v1 % 16 * 16 + v2 / 4) / 16 = v1 by omega,
+      show (v1 % 16 * 16 + v2 / 4) % 16 * 4 = v2 by omega, e0, e1, e2]
+  | case7 => cases h
+  | case8 => cases h
+  | case9 c0 c1 c2 c3 rest v0 v1 v2 v3 r hr h3 h2 h1 h0 ih =>
+    cases h
+    obtain ⟨e0, l0⟩ := sym_val h0; obtain ⟨e1, l1⟩ := sym_val h1; obtain ⟨e2, l2⟩ := sym_val h2
+    obtain ⟨e3, l3⟩ := sym_val h3
+    simp only [b64encode]
+    rw [ofNat_toNat_lt (by omega), ofNat_toNat_lt (by omega), ofNat_toNat_lt (by omega)]
+    rw [show (v0 * 4 + v1 / 16) / 4 = v0 by omega,
+      show (v0 * 4 + v1 / 16) % 4 * 16 + (v1 % 16 * 16 + v2 / 4) / 16 = v1 by omega,
+      show (v1 % 16 * 16 + v2 / 4) % 16 * 4 + (v2 % 4 * 64 + v3) / 64 = v2 by omega,
+      show (v2 % 4 * 64 + v3) % 64 = v3 by omega, e0, e1, e2, e3, ih hr]
+  | case10 => cases h
+
+/-- decoded length is determined by the text length: ⌊3·len/4⌋ -/
+theorem b64decode_length {s b : Bytes} (h : b64decode s = some b) : b.length = s.length * 3 / 4 := by
+  fun_induction b64decode s generalizing b with
+  | case1 => cases h; rfl
+  | case2 c => cases h
+  | case3 => cases h; simp only [List.length_cons, List.length_nil]
+  | case4 => cases h
+  | case5 => cases h
+  | case6 => cases h; simp only [List.length_cons, List.length_nil]
+  | case7 => cases h
+  | case8 => cases h
+  | case9 c0 c1 c2 c3 rest v0 v1 v2 v3 r hr h3 h2 h1 h0 ih =>
+    cases h
+    simp only [List.length_cons, ih hr]
+    omega
+  | case10 => cases h
+
+/-- `decode_base64` never reports more bytes than the output array holds -/
+theorem b64_bounded {attr : Option Bytes} {n : Nat} {b : Bytes} (h : decodeBase64 attr n = .ok b) : b.length ≤ n := by
+  unfold decodeBase64 at h
+  split at h
+  · cases h
+  · rename_i s
+    split at h
+    · cases h
+    · rename_i hlen
+      split at h
+      · cases h
+      · rename_i b' hb
+        cases h
+        rw [b64decode_length hb]
+        omega
+
+/-- over-long text is an error, whatever it contains -/
+theorem b64_overlong {s : Bytes} {n : Nat} (h : s.length > (n * 4 + 2) / 3) : decodeBase64 (some s) n = .err .invalid := by
+  simp [decodeBase64, h]
+
+
+
+/-! ## the member visitor -/
+
+theorem visitFrom_append (cfg : Cfg) (a : Acc) (l₁ l₂ : List (Bytes × JVal)) :
+    visitFrom cfg a (l₁ ++ l₂) = (visitFrom cfg a l₁).bind fun a' => visitFrom cfg a' l₂ := by
+  induction l₁ generalizing a with
+  | nil => rfl
+  | cons m ms ih =>
+    simp only [List.cons_append, visitFrom]
+    cases visitStep cfg a m with
+    | none => rfl
+    | some a' => exact ih a'
+
+theorem visitStep_unknown (cfg : Cfg) (a : Acc) {k : Bytes} (v : JVal) (hk : fieldOf k = none) :
+    visitStep cfg a (k, v) = if cfg.consumeUnknown then some a else none := by
+  simp only [visitStep, hk]
+
+/-- the full statement: a member with an unrecognised name does not change the result, whatever its value, wherever it stands -/
+def VisitIgnoresUnknown (cfg : Cfg) : Prop :=
+  ∀ (ms₁ ms₂ : List (Bytes × JVal)) (k : Bytes) (v : JVal), fieldOf k = none →
+    visit cfg (ms₁ ++ (k, v) :: ms₂) = visit cfg (ms₁ ++ ms₂)
+
+theorem visit_ignores_unknown_of_consume {cfg : Cfg} (h : cfg.consumeUnknown = true) : VisitIgnoresUnknown cfg := by
+  intro ms₁ ms₂ k v hk
+  unfold visit
+  rw [visitFrom_append, visitFrom_append]
+  cases visitFrom cfg {} ms₁ with
+  | none => rfl
+  | some a =>
+    simp only [Option.bind_some, visitFrom, visitStep_unknown cfg a v hk, h, if_true]
+
+/-- what the tree without the repair does instead: the import fails (so it is never a wrong key) -/
+theorem visit_unknown_fails {cfg : Cfg} (h : cfg.consumeUnknown = false) (ms₁ ms₂ : List (Bytes × JVal)) (k : Bytes) (v : JVal)
+    (hk : fieldOf k = none) : visit cfg (ms₁ ++ (k, v) :: ms₂) = none := by
+  unfold visit
+  rw [visitFrom_append]
+  cases visitFrom cfg {} ms₁ with
+  | none => rfl
+  | some a => simp [visitFrom, visitStep_unknown cfg a v hk, h]
+
+theorem fieldOf_ext : fieldOf (sb "ext") = none := by decide
+
+theorem visit_ignores_unknown_refuted : ¬ VisitIgnoresUnknown Cfg.pinned := by
+  intro h
+  have h1 := h [(sb "kty", .str (sb "OKP"))] [] (sb "ext") .bool fieldOf_ext
+  rw [visit_unknown_fails rfl _ _ _ _ fieldOf_ext] at h1
+  revert h1
+  decide
+
+
+
+/-! ## raw byte import never panics — except where it does -/
+
+def BytesImportTotal (cfg : Cfg) : Prop :=
+  ∀ (P : Prims) (alg : Alg) (b : Bytes), (fromSecretBytes cfg P alg b).isPanic = false ∧ (fromPublicBytes P alg b).isPanic = false
+
+theorem decodePublic_no_panic (P : Prims) (alg : Alg) (b : Bytes) (s : String) : decodePublic P alg b ≠ .panic s := by
+  unfold decodePublic
+  cases alg <;> simp only [] <;> (repeat' split) <;> simp
+
+theorem fromPublicBytes_no_panic (P : Prims) (alg : Alg) (b : Bytes) : (fromPublicBytes P alg b).isPanic = false := by
+  unfold fromPublicBytes
+  cases h : decodePublic P alg b with
+  | ok p => rfl
+  | err e => rfl
+  | panic s => exact absurd h (decodePublic_no_panic P alg b s)
+
+theorem fromSecretBytes_no_panic_of (cfg : Cfg) (P : Prims) (alg : Alg) (b : Bytes)
+    (h : alg.isEc = false ∨ b.length = alg.secretLen ∨ cfg.ecLenCheck = true) : (fromSecretBytes cfg P alg b).isPanic = false := by
+  unfold fromSecretBytes
+  (repeat' split) <;> simp_all [Res.isPanic]
+
+theorem bytes_import_total_of_lenCheck {cfg : Cfg} (h : cfg.ecLenCheck = true) : BytesImportTotal cfg :=
+  fun P alg b => ⟨fromSecretBytes_no_panic_of cfg P alg b (Or.inr (Or.inr h)), fromPublicBytes_no_panic P alg b⟩
+
+/-- the witness: one byte offered as a P-256 secret key -/
+theorem bytes_import_total_refuted : ¬ BytesImportTotal Cfg.pinned := by
+  intro h
+  have := (h ⟨fun _ _ => none, fun _ _ _ => none, fun _ _ => none⟩ .p256 [0]).1
+  revert this
+  decide
+
+/-- the panic happens for exactly these inputs -/
+theorem fromSecretBytes_panic_iff (P : Prims) (alg : Alg) (b : Bytes) :
+    (fromSecretBytes Cfg.pinned P alg b).isPanic = true ↔ (alg.isEc = true ∧ b.length ≠ alg.secretLen) := by
+  have hx : alg.isEc = true → alg.isSymmetric = false := by cases alg <;> simp [Alg.isEc, Alg.isSymmetric]
+  unfold fromSecretBytes
+  by_cases he : alg.isEc = true
+  · have hs := hx he
+    by_cases hl : b.length = alg.secretLen
+    · cases hp : P.pubOf alg b <;> simp [hs, he, hl, Res.isPanic]
+    · simp [hs, he, hl, Cfg.pinned, Res.isPanic]
+  · have he' : alg.isEc = false := by simpa using he
+    simp only [he', Bool.false_eq_true, if_false]
+    (repeat' split) <;> simp [Res.isPanic]
+
+theorem decodeExact_length {attr : Option Bytes} {n : Nat} {b : Bytes} (h : decodeExact attr n = .ok b) : b.length = n := by
+  unfold decodeExact at h
+  split at h
+  · split at h
+    · cases h
+    · rename_i hl; cases h; simpa using hl
+  · cases h
+  · cases h
+
+theorem bind_no_panic {α β} {r : Res α} {f : α → Res β} (hr : r.isPanic = false)
+    (hf : ∀ a, r = .ok a → (f a).isPanic = false) : (r >>= f).isPanic = false := by
+  cases r with
+  | ok a => exact hf a rfl
+  | err e => rfl
+  | panic s => cases hr
+
+theorem decodeBase64_no_panic (attr : Option Bytes) (n : Nat) (s : String) : decodeBase64 attr n ≠ .panic s := by
+  unfold decodeBase64
+  (repeat' split) <;> simp
+
+theorem decodeExact_no_panic (attr : Option Bytes) (n : Nat) : (decodeExact attr n).isPanic = false := by
+  unfold decodeExact
+  cases h : decodeBase64 attr n with
+  | ok b => simp only []; split <;> rfl
+  | err e => rfl
+  | panic s => exact absurd h (decodeBase64_no_panic attr n s)
+
+theorem checkPublic_no_panic (k : Key) (pk : Bytes) : (checkPublic k pk).isPanic = false := by
+  unfold checkPublic; split <;> rfl
+
+/-- JWK import cannot reach the panicking conversion: `d` is decoded into exactly `secretLen` bytes first -/
+theorem fromJwkParts_no_panic (cfg : Cfg) (P : Prims) (alg : Alg) (j : Parts) : (fromJwkParts cfg P alg j).isPanic = false := by
+  unfold fromJwkParts
+  split
+  · -- EC
+    split; · rfl
+    split; · rfl
+    refine bind_no_panic (decodeExact_no_panic _ _) fun x _ => ?_
+    refine bind_no_panic (decodeExact_no_panic _ _) fun y _ => ?_
+    split
+    · rfl
+    · split
+      · refine bind_no_panic (decodeExact_no_panic _ _) fun d hd => ?_
+        refine bind_no_panic (fromSecretBytes_no_panic_of cfg P alg d (Or.inr (Or.inl (decodeExact_length hd)))) fun kp _ => ?_
+        split <;> rfl
+      · rfl
+  · split
+    · -- BLS
+      split; · rfl
+      split; · rfl
+      refine bind_no_panic (decodeExact_no_panic _ _) fun x _ => ?_
+      split
+      · refine bind_no_panic (decodeExact_no_panic _ _) fun d hd => ?_
+        refine bind_no_panic (fromSecretBytes_no_panic_of cfg P alg d (Or.inl (by simp_all))) fun kp _ => ?_
+        exact checkPublic_no_panic _ _
+      · exact fromPublicBytes_no_panic _ _ _
+    · split
+      · split; · rfl
+        split; · rfl
+        refine bind_no_panic (decodeExact_no_panic _ _) fun x _ => ?_
+        split
+        · refine bind_no_panic (decodeExact_no_panic _ _) fun d hd => ?_
+          refine bind_no_panic (fromSecretBytes_no_panic_of cfg P alg d (Or.inl (by simp_all))) fun kp _ => ?_
+          exact checkPublic_no_panic _ _
+        · exact fromPublicBytes_no_panic _ _ _
+      · rfl
+
+theorem fromJwkAny_no_panic (cfg : Cfg) (P : Prims) (j : Parts) : (fromJwkAny cfg P j).isPanic = false := by
+  unfold fromJwkAny
+  split
+  · exact fromJwkParts_no_panic _ _ _ _
+  · rfl
+
+theorem fromJwk_no_panic (cfg : Cfg) (P : Prims) (text : Bytes) : (fromJwk cfg P text).isPanic = false := by
+  unfold fromJwk
+  split
+  · exact fromJwkAny_no_panic _ _ _
+  · rfl
+
+
+
+/-! ## exports -/
+
+/-- a public-mode export has no member named `d` or `k` -/
+theorem public_export_names (k : Key) (a : Option Alg) (ms : List Member) (h : encodeJwk k .publicKey a = .ok ms) :
+    ∀ m ∈ ms, m.1 ≠ "d" ∧ m.1 ≠ "k" := by
+  by_cases hs : k.alg.isSymmetric = true <;> by_cases he : k.alg.isEc = true <;> by_cases hb : k.alg.isBls = true <;>
+    simp [encodeJwk, hs, he, hb] at h <;> subst h <;> simp
+
+/-- a public-mode export does not depend on the secret at all -/
+theorem public_export_independent_of_secret (k : Key) (a : Option Alg) (s' : Option Bytes) :
+    encodeJwk { k with secret := s' } .publicKey a = encodeJwk k .publicKey a := by
+  unfold encodeJwk blsView
+  simp
+
+/-- symmetric keys have no public export -/
+theorem public_export_symmetric (k : Key) (a : Option Alg) (h : k.alg.isSymmetric = true) :
+    encodeJwk k .publicKey a = .err .unsupported := by
+  unfold encodeJwk; simp [h]
+
+theorem toPublicBytes_independent_of_secret (k : Key) (s' : Option Bytes) :
+    toPublicBytes { k with secret := s' } = toPublicBytes k := rfl
+
+/-- the hashed text consists of exactly the RFC 7638 required members of the key type, in that (lexicographic) order -/
+theorem thumbprint_member_names (k : Key) (a : Option Alg) (ms : List Member) (h : encodeJwk k .thumbprint a = .ok ms) :
+    ms.map (·.1) = rfc7638Members k.alg.jwkKty := by
+  by_cases hs : k.alg.isSymmetric = true <;> by_cases he : k.alg.isEc = true <;> by_cases hb : k.alg.isBls = true <;>
+    simp [encodeJwk, hs, he, hb] at h <;> subst h <;> simp [Alg.jwkKty, hs, he, rfc7638Members]
+
+/-- … the `kty` member carries the key type … -/
+theorem thumbprint_kty (k : Key) (a : Option Alg) (ms : List Member) (h : encodeJwk k .thumbprint a = .ok ms) :
+    ("kty", sb k.alg.jwkKty) ∈ ms := by
+  by_cases hs : k.alg.isSymmetric = true <;> by_cases he : k.alg.isEc = true <;> by_cases hb : k.alg.isBls = true <;>
+    simp [encodeJwk, hs, he, hb] at h <;> subst h <;> simp [Alg.jwkKty, hs, he]
+
+/-- … and every hashed member is, name and value, a member of the full export of the same key (same `alg` view) -/
+theorem thumbprint_members_of_export (k : Key) (a : Option Alg) (ms : List Member) (h : encodeJwk k .thumbprint a = .ok ms) :
+    ∃ full, encodeJwk k .secretKey a = .ok full ∧ ∀ m ∈ ms, m ∈ full := by
+  by_cases hs : k.alg.isSymmetric = true <;> by_cases he : k.alg.isEc = true <;> by_cases hb : k.alg.isBls = true <;>
+    simp [encodeJwk, hs, he, hb] at h ⊢ <;> subst h <;> simp <;> grind
+
+/-- the required member lists are in lexicographic order, and the rendering adds no whitespace -/
+theorem rfc7638_sorted : ∀ kty ∈ ["EC", "OKP", "oct"], (rfc7638Members kty).Pairwise (· < ·) := by decide
+
+theorem render_example :
+    renderMembers [("crv", sb "Ed25519"), ("kty", sb "OKP"), ("x", sb "AA")] = sb "{\"crv\":\"Ed25519\",\"kty\":\"OKP\",\"x\":\"AA\"}" := by decide
+
+
 end Askar.Jwk
